@@ -19,6 +19,11 @@ def raise_sites(idx, errcls):
             r = idx.resolve(mod, t, fi)
             if r and r[0] == "class" and errcls in idx.mro(r[1]):
                 out.append((mod, fi, n))
+            elif isinstance(n.exc, ast.Name) and fi is not None:
+                # `raise e` with e bound once to the constructed error (the CFG builder resolves it)
+                for rn in K.cfg_of(idx, fi).find("raise"):
+                    if rn.ast is n and (rn.meta.get("qual") or "") == errcls.qual:
+                        out.append((mod, fi, n))
     return out
 
 
@@ -69,15 +74,16 @@ def rule_b(ctx, idx, A, errcls):
     ctx.count("paths_enumerated", len(paths))
 
     def is_err_raise(n):
-        if n.kind == "call" and n.meta.get("raising_ctor"):
-            q = n.meta.get("qual") or ""
-            return q == errcls.qual  # the constructor evaluated by `raise Err(...)` (C13.d: it constructs)
+        if n.kind == "call" and (n.meta.get("raising_ctor") or isinstance(getattr(n, "stmt", None), ast.Assign)):
+            q = n.meta.get("qual") or (idx.qualname(fi.module, n.ast.func, fi) if isinstance(n.ast, ast.Call) else "") or ""
+            return q == errcls.qual  # the constructor evaluated by `raise Err(...)` or `e = Err(...)` ... `raise e` (C13.d: it constructs)
         if n.kind != "raise":
             return False
         q = n.meta.get("qual") or ""
         return q == errcls.qual or q.endswith("." + ERR)
 
     verdicts = {}
+    soft = []
     for a in sorted(cands):
         why = None
         for p in paths:
@@ -102,10 +108,43 @@ def rule_b(ctx, idx, A, errcls):
                 why = (p, "`%s` found true but the path returns normally instead of raising %s" % (a, ERR))
             if running and not any(is_err_raise(n) for n, _ in p) and p[-1][0] is cfg.raise_exit and why is None:
                 # leaves exceptionally by some other error: acceptable only if it is the dedicated error
+                last = p[-2][0] if len(p) >= 2 else None
+                st_ = getattr(last, "stmt", None)
+                if isinstance(st_, ast.Raise) and isinstance(st_.exc, ast.Call) and (idx.qualname(fi.module, st_.exc.func, fi) or K.src(st_.exc.func)).endswith(ERR) and last is not None and last.kind == "call":
+                    # an exception out of a call that computes an argument of the error itself (a message naming the loop): whether
+                    # that call can fail is a matter of the callee, not of the guard
+                    # ... except for what is plain to see in the callee: a next() without default outside a StopIteration handler
+                    callee = None
+                    f_ = last.ast.func
+                    if isinstance(f_, ast.Attribute) and isinstance(f_.value, ast.Name) and f_.value.id == sn:
+                        callee = idx.find_method(A.command, f_.attr)
+                    bare = []
+                    for g_ in ([callee] + [h_ for h_ in K.helper_closure(idx, callee) if h_ is not callee] if callee is not None else []):
+                        node0 = getattr(g_, "node_orig", None) or g_.node
+                        par_ = {}
+                        for y_ in ast.walk(node0):
+                            for c_ in ast.iter_child_nodes(y_):
+                                par_[id(c_)] = y_
+                        for y_ in ast.walk(node0):
+                            if isinstance(y_, ast.Call) and isinstance(y_.func, ast.Name) and y_.func.id == "next" and len(y_.args) == 1 and not y_.keywords:
+                                q_, caught_ = y_, False
+                                while id(q_) in par_:
+                                    q_ = par_[id(q_)]
+                                    if isinstance(q_, ast.Try) and any(h_.type is None or "StopIteration" in K.src(h_.type) or K.src(h_.type) in ("Exception", "BaseException") for h_ in q_.handlers):
+                                        caught_ = True
+                                if not caught_:
+                                    bare.append((g_, y_))
+                    if bare:
+                        why = (p, "the recursive-model error is built with `%s`, and %s evaluates `%s` with no default outside a StopIteration handler: when nothing is found the StopIteration escapes in place of %s (and Command.run reports it as an unexpected error)" % (K.src(last.ast)[:50], bare[0][0].qualname, K.src(bare[0][1])[:60], ERR))
+                        continue
+                    soft.append("C14.b: the recursive-model error is built with `%s`; whether that call can fail (and another exception escape in its place) is not decided by the guard rule" % K.src(last.ast)[:60])
+                    continue
                 why = (p, "`%s` found true but the path does not raise %s" % (a, ERR))
         verdicts[a] = why
     con = "%s::re-entrancy-guard" % fi.key
     good = [a for a, w in verdicts.items() if w is None]
+    if good and soft:
+        raise AnalysisError(soft[0])
     if good:
         ctx.hold("C14.b", con, K.rel(fi), fi.node.lineno, "in-progress flag `%s` is tested, raises %s when set, and is set before execute on all %d paths" % (good[0], ERR, len(paths)))
         # the flag must start false
@@ -214,6 +253,57 @@ def rule_c(ctx, idx, A, errcls):
     ctx.violate("C14.c", con, K.rel(fi), fi.node.lineno, "Program.run contains no loop over the command table that starts commands")
 
 
+def _excluded_by_test(idx, m, x, recv, attr):
+    """The read `x` of <recv>.<attr> is reached only through the false edge of `isinstance(<recv>, C)` with C covering every class
+    that computes `attr`, with no store to recv in between; and every loop of the method that advances recv stops on a reference
+    loop (a membership test on a collection the loop adds to: in its condition with the add first in the body, or test-stop-record
+    in the body).  True / None (shape not present); raises AnalysisError when the exclusion is there but a loop has no such guard."""
+    cfg = K.cfg_of(idx, m)
+    at = [n for n in cfg.nodes if isinstance(n.ast, ast.AST) and any(x is y for y in ast.walk(n.ast))]
+    at += [n for n in cfg.nodes if isinstance(n.meta.get("value"), ast.AST) and any(x is y for y in ast.walk(n.meta["value"]))]
+    if not at:
+        return None
+    computing = [d2.cls for d2 in K.table(idx) if (idx.find_method(d2.cls, attr) is not None and idx.find_method(d2.cls, attr).cls is not K.anchors(idx).command)]
+    ok_tests = []
+    for t in cfg.find("test"):
+        e = t.ast
+        if isinstance(e, ast.Call) and isinstance(e.func, ast.Name) and e.func.id == "isinstance" and len(e.args) == 2 and isinstance(e.args[0], ast.Name) and e.args[0].id == recv.id:
+            cq = idx.qualname(m.module, e.args[1], m)
+            if all(any(getattr(c_, "qual", None) == cq for c_ in idx.mro(c2)) for c2 in computing):
+                ok_tests.append(t)
+    good = [t for t in ok_tests if all(cfg.dominates(t, a) and K.holds_on_edge(cfg, t, a, "false") for a in at)]
+    if not good:
+        return None
+    t = good[-1]
+    # no store to recv between the test and the read
+    between = cfg.reachable([m_ for m_, l in t.succ if l == "false"], avoid=set(at))
+    if any(n.kind == "store" and n.meta.get("name") == recv.id for n in between if any(a in cfg.reachable(n) for a in at)):
+        return None
+    for lp in [n for n in ast.walk(m.node) if isinstance(n, ast.While)]:
+        if not any(isinstance(z, ast.Assign) and any(isinstance(t_, ast.Name) and t_.id == recv.id for t_ in z.targets) for z in ast.walk(lp)):
+            continue
+        guarded = False
+        conds = lp.test.values if isinstance(lp.test, ast.BoolOp) and isinstance(lp.test.op, ast.And) else [lp.test]
+        for c in conds:
+            if isinstance(c, ast.Compare) and len(c.ops) == 1 and isinstance(c.ops[0], ast.NotIn) and isinstance(c.comparators[0], ast.Name):
+                coll, key = c.comparators[0].id, K.src(c.left)
+                first = lp.body[0] if lp.body else None
+                if isinstance(first, ast.Expr) and isinstance(first.value, ast.Call) and isinstance(first.value.func, ast.Attribute) and first.value.func.attr in ("add", "append") \
+                        and isinstance(first.value.func.value, ast.Name) and first.value.func.value.id == coll and first.value.args and K.src(first.value.args[0]) == key:
+                    guarded = True
+        for y in lp.body:
+            if isinstance(y, ast.If) and isinstance(y.test, ast.Compare) and len(y.test.ops) == 1 and isinstance(y.test.ops[0], ast.In) and isinstance(y.test.comparators[0], ast.Name) \
+                    and y.body and isinstance(y.body[-1], (ast.Raise, ast.Return, ast.Break)):
+                coll, key = y.test.comparators[0].id, K.src(y.test.left)
+                later = lp.body[lp.body.index(y) + 1:]
+                if any(isinstance(z, ast.Expr) and isinstance(z.value, ast.Call) and isinstance(z.value.func, ast.Attribute) and z.value.func.attr in ("add", "append") and isinstance(z.value.func.value, ast.Name)
+                       and z.value.func.value.id == coll and z.value.args and K.src(z.value.args[0]) == key for z in later):
+                    guarded = True
+        if not guarded:
+            raise AnalysisError("C14.d: `%s` of %s walks its references in a loop with no visited-guard of a recognised form" % (attr, m.qualname))
+    return True
+
+
 def _after_exclusion_loop(idx, m, x, attr):
     """`x` reads <recv>.<attr> after a top-level `while isinstance(<recv>, C):` loop without break, where C covers every command
     class that computes `attr`: the receiver is then none of them, so the read is of plain data.  The loop itself must stop on
@@ -222,6 +312,9 @@ def _after_exclusion_loop(idx, m, x, attr):
     recv = x.value if isinstance(x, ast.Attribute) else x.args[0]
     if not isinstance(recv, ast.Name):
         return False
+    alt = _excluded_by_test(idx, m, x, recv, attr)
+    if alt is not None:
+        return alt
     body = m.node.body
     pos = next((i for i, st in enumerate(body) if any(x is y for y in ast.walk(st))), None)
     if pos is None:
@@ -333,6 +426,10 @@ def rule_g(ctx, idx, A):
             continue
         cfg = K.cfg_of(idx, f)
         guards = [t for t in cfg.find("test") if isinstance(t.ast, ast.Compare) and len(t.ast.ops) == 1 and isinstance(t.ast.ops[0], (ast.In, ast.NotIn)) and isinstance(t.ast.comparators[0], ast.Name)]
+        # a visited-collection is one the walk itself adds to; membership in a constant table (`type(v) in PLAIN_TYPES`) is no guard
+        grown = {c.func.value.id for c in ast.walk(f.node) if isinstance(c, ast.Call) and isinstance(c.func, ast.Attribute) and c.func.attr in ("add", "append", "update", "extend", "insert") and isinstance(c.func.value, ast.Name)}
+        grown |= {t_.value.id for st in ast.walk(f.node) if isinstance(st, ast.Assign) for t_ in st.targets if isinstance(t_, ast.Subscript) and isinstance(t_.value, ast.Name)}
+        guards = [t for t in guards if t.ast.comparators[0].id in grown]
         reccalls = [c for c in cfg.find("call") if any(c.ast is r for r in rec)]
         if not reccalls:
             continue
